@@ -49,3 +49,12 @@ Definition prop_of (k : N) (s : sigd) : list Z :=
   end.
 Definition released_att (k : N) (out : list resp) : list (Z * Z) := flat_map (att_of k) (released out).
 Definition released_prop (k : N) (out : list resp) : list Z := flat_map (prop_of k) (released out).
+
+(* the entries of an attestation batch submitted one at a time, in order *)
+Fixpoint seq_atts (c : scfg) (st : store) (cl : creds) (reqs : list (addr * option att_data))
+  : list (cres * option sigd) * store :=
+  match reqs with
+  | [] => ([], st)
+  | r :: rest => let '(x, st1) := sign_att c st cl (fst r) (snd r) no_ofault in
+                 let '(xs, st2) := seq_atts c st1 cl rest in (x :: xs, st2)
+  end.
